@@ -132,6 +132,12 @@ class Shape:
             # every integer of the constraint is written as a reference to a value assignment
             defs = ' '.join(f"v{k} INTEGER ::= {val(k)}" for k in range(self.nph)) + ' '
             val = lambda k: f"v{k}"
+        if self.context == 'named-clash':
+            # every integer is a named number of T itself; a type that sorts before T declares the same names with other values
+            own = ', '.join(f"n{k}({val(k)})" for k in range(self.nph))
+            other = ', '.join(f"n{k}(1)" for k in range(self.nph))
+            c = self.constraint_text(lambda k: f"n{k}")
+            return f"M DEFINITIONS AUTOMATIC TAGS ::= BEGIN Aa ::= INTEGER {{ {other} }} T ::= INTEGER {{ {own} }} {c} END"
         c = self.constraint_text(val)
         base = self.size_of or 'INTEGER'
         if self.size_of in ('SEQUENCE OF', 'SET OF'):
@@ -246,6 +252,10 @@ def shapes(tier, contexts=('assign', 'component'), size_types=()):
         for st in size_types[:2] + size_types[-1:]:
             for k in (('single',), ('range', 'lo', 'hi'), ('range', 'lo', 'MAX')):
                 out.append(Shape([ESet([mk_elem(k)], [], False)], ctx, size_of=st))
+    # named numbers of the constrained type as bounds, while another type declares the same names
+    for k in ks[:4]:
+        out.append(Shape([ESet([mk_elem(k)], [], False)], 'named-clash'))
+    out.append(Shape([ESet([mk_elem(('range', 'lo', 'hi'))], [], True)], 'named-clash'))
     for st in size_types:
         sz = [lambda: ESet([mk_elem(('single',))], [], False), lambda: ESet([mk_elem(('single',))], [], True),
               lambda: ESet([mk_elem(('range', 'lo', 'hi'))], [], False), lambda: ESet([mk_elem(('range', 'lo', 'hi'))], [], True),
@@ -351,7 +361,7 @@ def locate(items, shape):
     t = structs.get('T')
     if t is None:
         return None
-    if shape.context in ('assign', 'ref', 'valref'):
+    if shape.context in ('assign', 'ref', 'valref', 'named-clash'):
         return t.rasn_items(), t.fields[0].ty if t.fields else [], which
     if shape.context in ('component', 'valref-component'):
         fld = [f for f in t.fields if f.name == 'a']
